@@ -814,4 +814,10 @@ Qed.
 Theorem derivations_functional ls : NoDup (map (fun d => fst (fst d)) (n_der (run ls))).
 Proof. apply (i_dernd _ (run_inv ls)). Qed.
 
+(* a closed node never waits for anybody: whatever it holds it can answer at once *)
+Theorem closed_can_drop st n : n_closed st n = true -> n_q st n <> [] -> step st (LDrop n) <> None.
+Proof.
+  intros C Q. cbn [step]. rewrite C. destruct (n_q st n); [congruence|discriminate].
+Qed.
+
 End Net.
